@@ -262,4 +262,18 @@ theorem periodic_solve_gain (hv : C02.Valid P c) (hA : 0 < P.nA) (hst : Stoch P)
     rw [this]; exact periodic_values_are_vi P c 1 ε p n
   · exact periodic_gain_bracket P c ε p hv hA hst hp h g hg n hpn (by rw [hm']; exact hmlt) i
 
+/-- the per-step estimate `(V_n − V_{n−p})/p` reported at convergence is within ε/p of the long-run average reward of **every**
+    stationary deterministic policy from above: no policy has a gain exceeding any component of the estimate by ε/p or more
+    (`g` dominates every policy's gain, `C04.optimal_gain_dominates`) -/
+theorem periodic_gain_vs_every_policy (hv : C02.Valid P c) (hA : 0 < P.nA) (hst : Stoch P) (hp : 0 < p)
+    (h : Fin P.nS → α) (g : α) (hg : ∀ i, Top P 1 h i = h i + g) (n : Nat) (hn : p ≤ n)
+    (hconv : spanOf (Vn P c 1 n) (Vn P c 1 (n - p)) < ε)
+    (pol : Fin P.nS → Nat) (hpol : ∀ i, pol i < P.nA) (hd : Fin P.nS → α) (gd : α) (hgd : ∀ i, Tpol P 1 pol hd i = hd i + gd)
+    (i : Fin P.nS) :
+    gd < (toFn P.nS (Vn P c 1 n) i - toFn P.nS (Vn P c 1 (n - p)) i) / p + ε / p := by
+  have h1 := periodic_gain_bracket P c ε p hv hA hst hp h g hg n hn hconv i
+  have h2 := C04.optimal_gain_dominates P c hv hA hst h g hg pol hpol hd gd hgd
+  have := abs_lt.mp h1
+  linarith [this.1, this.2]
+
 end MdpaxV.C07
